@@ -1,13 +1,13 @@
 import AkVerif.Model.Proto
-import AkVerif.Model.Ghist
+import AkVerif.Model.GhistTags
 open Ak Ak.Proto Ghist
 
 /-!
 `rep <remote> <commits> <refs>`
 * remote  : code points
-* commits : `;`-separated `parents:tags:match:time` (`parents` = comma list or `-`; `tags` = `+`-separated
-            `major.minor.patch.build` or `-`; `match` = 0/1; `time` = commit time in seconds), the position is the
-            commit id; `-` = no commit
+* commits : `;`-separated `parents:tags:match:time:saved` (`parents` = comma list or `-`; `tags` = `+`-separated tag
+            names as code points or `-`; `match` = 0/1; `time` = commit time in seconds; `saved` = `major.minor` of the
+            version file in the commit or `-`), the position is the commit id; `-` = no commit
 * refs    : `;`-separated `name:head` (`name` as code points), `-` = none
 reply: `ok <branch> <branch> …`, branch = `name=build;build;…`, build = `N|M:bn:commit|-:c,c,…`
 -/
@@ -17,16 +17,22 @@ def parseBN (s : String) : Option BN :=
   | some [a, b, c, d] => some ⟨a, b, c, d⟩
   | _ => none
 
-def parseTags (s : String) : Option (List BN) :=
-  if s = "-" then some [] else (s.splitOn "+").mapM parseBN
+def parseTagNames (s : String) : Option (List (List Char)) :=
+  if s = "-" then some [] else (s.splitOn "+").mapM parseCps
 
-def parseCommit (s : String) : Option (Commit Unit) :=
+def parseSaved (s : String) : Option (Option (Nat × Nat)) :=
+  if s = "-" then some none
+  else match (s.splitOn ".").mapM (·.toNat?) with
+    | some [a, b] => some (some (a, b))
+    | _ => none
+
+def parseCommit (s : String) : Option (RawCommit Unit) :=
   match s.splitOn ":" with
-  | [p, t, m, ts] =>
-    match parseNatList p, parseTags t, m.toNat?, ts.toNat? with
-    | some ps, some tg, some k, some time =>
-      some { parents := ps, tags := tg, isMatch := k != 0, pins := (), time := time }
-    | _, _, _, _ => none
+  | [p, t, m, ts, sv] =>
+    match parseNatList p, parseTagNames t, m.toNat?, ts.toNat?, parseSaved sv with
+    | some ps, some tg, some k, some time, some saved =>
+      some { parents := ps, tagNames := tg, saved := saved, isMatch := k != 0, pins := (), time := time }
+    | _, _, _, _, _ => none
   | _ => none
 
 def parseList {α} (f : String → Option α) (s : String) : Option (List α) :=
@@ -55,8 +61,10 @@ def handle (line : String) : String :=
   match splitWs line with
   | ["rep", remote, commits, refs] =>
     match parseCps remote, parseList parseCommit commits, parseList parseRef refs with
-    | some rm, some cs, some rs =>
-      showExcept showReport (report { commits := cs, remote := rm, refs := rs } Plug.none)
+    | some rm, some raw, some rs =>
+      match toCommits raw with
+      | .ok cs => showExcept showReport (report { commits := cs, remote := rm, refs := rs } Plug.none)
+      | .error _ => "bad-op"      -- a build tag that needs the saved version of a commit that has none
     | _, _, _ => "bad-op"
   | _ => "bad-op"
 
